@@ -103,8 +103,9 @@ func varyingSuite() hlib.Suite {
 							}
 							seq := []int{alpha[a], alpha[b], alpha[c]}
 							idx := -1
-							_, f, _ := api.NewDistribution(kind, time.Duration(n)*100*time.Millisecond, func(time.Time) int { idx++; return seq[idx] }, func(k int) int { return k / 2 })
-							input := fmt.Sprintf("%s N=%d rates=%v", kind, n, seq)
+							extra := []time.Duration{0, 50 * time.Millisecond, 99 * time.Millisecond}[(a+b+c)%3]
+							_, f, _ := api.NewDistribution(kind, time.Duration(n)*100*time.Millisecond+extra, func(time.Time) int { idx++; return seq[idx] }, func(k int) int { return k / 2 })
+							input := fmt.Sprintf("%s interval=%s (N=%d) rates=%v", kind, time.Duration(n)*100*time.Millisecond+extra, n, seq)
 							for cyc := 0; cyc < 3; cyc++ {
 								r.Eval()
 								sum := 0
@@ -164,8 +165,9 @@ func randomSuite(maxN int) hlib.Suite {
 						}
 						return a
 					}
-					_, f, _ := api.NewDistribution(api.RandomDistribution, time.Duration(n)*100*time.Millisecond, func(time.Time) int { calls++; return rate }, randFn)
-					input := fmt.Sprintf("random N=%d rate=%d answer-script=%d", n, rate, code)
+					extra := []time.Duration{0, 50 * time.Millisecond, 99 * time.Millisecond}[code%3] // N = floor(interval / 100 ms)
+					_, f, _ := api.NewDistribution(api.RandomDistribution, time.Duration(n)*100*time.Millisecond+extra, func(time.Time) int { calls++; return rate }, randFn)
+					input := fmt.Sprintf("random interval=%s (N=%d) rate=%d answer-script=%d", time.Duration(n)*100*time.Millisecond+extra, n, rate, code)
 					for cyc := 0; cyc < 2; cyc++ {
 						sum := 0
 						for i := 0; i < n; i++ {
@@ -189,6 +191,47 @@ func randomSuite(maxN int) hlib.Suite {
 			}
 		}
 		r.Sample(map[string]any{"kind": "random", "answers": "{0,n/2,n-1,n,n+5} at every draw", "cycles": 2})
+	}}
+}
+
+// longRunSuite: "over any number of consecutive cycles" - tens of millions of
+// sub-ticks for a few configurations, so that anything carried from cycle to
+// cycle (a rounding residue, say) has the time to surface.
+func longRunSuite(subTicks int) hlib.Suite {
+	return hlib.Suite{Name: fmt.Sprintf("regular+random/long-runs/%d-sub-ticks", subTicks), Weight: 2, Run: func(r *hlib.Rec) {
+		type lc struct {
+			kind api.DistributionType
+			n    int
+			rate int
+		}
+		for _, c := range []lc{{api.RegularDistribution, 600, 7}, {api.RegularDistribution, 10, 7}, {api.RegularDistribution, 3, 1}, {api.RegularDistribution, 7, 999}, {api.RandomDistribution, 10, 7}} {
+			if !r.Mine() {
+				continue
+			}
+			calls := 0
+			_, f, _ := api.NewDistribution(c.kind, time.Duration(c.n)*100*time.Millisecond, func(time.Time) int { calls++; return c.rate }, func(k int) int { return k / 3 })
+			input := fmt.Sprintf("%s N=%d rate=%d, %d consecutive cycles", c.kind, c.n, c.rate, subTicks/c.n)
+			for cyc := 0; cyc < subTicks/c.n; cyc++ {
+				if r.Expired() {
+					return
+				}
+				r.Eval()
+				sum := 0
+				for i := 0; i < c.n; i++ {
+					sum += f(now)
+				}
+				if sum != c.rate {
+					r.Fail("C12/long-run-sum", cmp(sum, c.rate), fmt.Sprintf("cycle %d sums to %d, want %d", cyc, sum, c.rate), input)
+					break
+				}
+				if calls != cyc+1 {
+					r.Fail("C12/long-run-calls", "not-once-per-cycle", fmt.Sprintf("%d evaluations after %d cycles", calls, cyc+1), input)
+					break
+				}
+			}
+			r.Distinct(input)
+		}
+		r.Sample("N=600 rate=7, N=10 rate=7, N=3 rate=1, N=7 rate=999 (regular), N=10 rate=7 (random) for tens of millions of sub-ticks")
 	}}
 }
 
@@ -231,9 +274,9 @@ func passSuite() hlib.Suite {
 
 func suites(tier string) []hlib.Suite {
 	if tier == "quick" {
-		return []hlib.Suite{regularSuite(100, 300, 1), varyingSuite(), randomSuite(4), passSuite()}
+		return []hlib.Suite{regularSuite(100, 300, 1), varyingSuite(), randomSuite(4), passSuite(), longRunSuite(40_000_000)}
 	}
-	return []hlib.Suite{regularSuite(600, 1500, 1), regularSuite(60, 20000, 7), varyingSuite(), randomSuite(5), passSuite()}
+	return []hlib.Suite{regularSuite(600, 1500, 1), regularSuite(60, 20000, 7), varyingSuite(), randomSuite(5), passSuite(), longRunSuite(400_000_000)}
 }
 
 func main() { hlib.EnumMain("C12", suites) }
